@@ -4,9 +4,16 @@ Everything here looks at the implementation's objects from outside (id(), __dict
 nothing in /repo is instrumented.  Every walker FAILS CLOSED (raises UnknownObject) on an object type it does not
 know, so that an object reachable only through a type we do not understand cannot hide aliasing.
 
-Atoms (never entered, identity irrelevant): None, bool, int, float, str, bytes, type objects, and exception instances
-(the property text excludes them: ParsingException.__deepcopy__ returns self).  A tuple is immutable but may hold
-mutable objects: it is walked through, never counted as a mutable object itself.
+Atoms (identity irrelevant): None, bool, int, float, str, bytes, type objects, and exception instances (the property
+text excludes them: ParsingException.__deepcopy__ returns self).  A tuple is immutable but may hold mutable objects: it
+is walked through, never counted as a mutable object itself.
+
+An exception object is an atom only as far as ITS OWN identity goes (it may be shared, it is never counted as a mutable
+object, and for the Coq heap model - Numbering / atom_code - it is one opaque atom).  What it HOLDS is ordinary state:
+the graph walkers of the oracle (reachable, identity_map, struct_diff, clone) pass through it like through a tuple -
+args, the attributes in __dict__, and (reachable only) the chained exceptions __cause__ / __context__ - so that a block,
+field, list or dict kept as an attribute of the error of a failed block cannot hide aliasing or mutation.  Not followed:
+__traceback__ (frames are interpreter state, not data of the library).
 """
 import hashlib
 
@@ -26,6 +33,40 @@ def is_atom(x):
     return isinstance(x, ATOM_TYPES) or isinstance(x, BaseException) or isinstance(x, type)
 
 
+def is_exc(x):
+    return isinstance(x, BaseException)
+
+
+def is_leaf(x):
+    """nothing to enter: an atom that is not an exception object"""
+    return is_atom(x) and not isinstance(x, BaseException)
+
+
+# immutable C-level values that shipped exception classes keep as attributes (RegexMismatchException: re.Match objects)
+OPAQUE_IN_EXC = ("re.Match", "re.Pattern", "_sre.SRE_Match", "_sre.SRE_Pattern")
+HARNESS_EXC_ATTR_PREFIX = "_c07_"      # notes the harness itself hangs on exceptions it catches
+
+
+def exc_children(e, chained=False):
+    """(edge label, child) of what an exception object holds: args, then its instance attributes sorted by name
+    (attribute order of an exception is not observable state); with chained=True also __cause__ / __context__."""
+    out = [("!args", e.args)]
+    d = getattr(e, "__dict__", None) or {}
+    for k in sorted(d, key=str):
+        if isinstance(k, str) and k.startswith(HARNESS_EXC_ATTR_PREFIX):
+            continue
+        v = d[k]
+        if "%s.%s" % (type(v).__module__, type(v).__name__) in OPAQUE_IN_EXC:
+            v = "<%s>" % type(v).__name__
+        out.append((k, v))
+    if chained:
+        for k in ("__cause__", "__context__"):
+            c = getattr(e, k, None)
+            if c is not None:
+                out.append((k, c))
+    return out
+
+
 def is_instance_record(x):
     t = type(x)
     if t.__name__ in INSTANCE_CLASSES and t.__module__.startswith("bibtexparser"):
@@ -36,7 +77,9 @@ def is_instance_record(x):
 
 
 def children(x):
-    """Ordered list of (edge label, child) of a non-atom object."""
+    """Ordered list of (edge label, child) of a non-atom object (or of an exception object: what it holds)."""
+    if isinstance(x, BaseException):
+        return exc_children(x)
     if isinstance(x, (list, tuple)) and type(x) in (list, tuple):
         return list(enumerate(x))
     if type(x) is dict or type(x).__name__ == "OrderedDict":
@@ -64,16 +107,17 @@ def is_mutable_node(x):
 
 
 def reachable(roots):
-    """dict id -> object for every MUTABLE object reachable from roots (atoms are not entered; tuples are passed through)."""
+    """dict id -> object for every MUTABLE object reachable from roots (atoms are not entered; tuples and exception
+    objects - incl. their __cause__ / __context__ chain - are passed through, never counted)."""
     seen, out, stack = set(), {}, list(roots)
     while stack:
         x = stack.pop()
-        if is_atom(x) or id(x) in seen:
+        if is_leaf(x) or id(x) in seen:
             continue
         seen.add(id(x))
         if is_mutable_node(x):
             out[id(x)] = x
-        for _, c in children(x):
+        for _, c in (exc_children(x, chained=True) if is_exc(x) else children(x)):
             stack.append(c)
     return out
 
@@ -102,14 +146,19 @@ def struct_diff(a, b, path="", memo=None):
     if memo is None:
         memo = ({}, {})
     fw, bw = memo
-    if is_atom(a) or is_atom(b):
-        if isinstance(a, BaseException) and isinstance(b, BaseException):
-            return None if exc_repr(a) == exc_repr(b) else "%s: exception %r vs %r" % (path, exc_repr(a), exc_repr(b))
+    if is_leaf(a) or is_leaf(b):
         if type(a) is not type(b) or a != b:
             return "%s: %r vs %r" % (path, a, b)
         return None
     if type(a) is not type(b):
         return "%s: class %s vs %s" % (path, type(a).__name__, type(b).__name__)
+    if is_exc(a):
+        # the exception objects themselves may be one shared object or two; what they say and hold must be equal
+        if exc_repr(a) != exc_repr(b):
+            return "%s: exception %r vs %r" % (path, exc_repr(a), exc_repr(b))
+        if a is b and id(a) not in fw and id(b) not in bw:
+            fw[id(a)] = bw[id(a)] = id(a)
+            return None
     if id(a) in fw or id(b) in bw:
         if fw.get(id(a)) != id(b) or bw.get(id(b)) != id(a):
             return "%s: sharing pattern differs" % path
@@ -129,16 +178,40 @@ def struct_diff(a, b, path="", memo=None):
 
 
 def clone(x, memo=None):
-    """The harness's own deep copy (the reference 'prior deep copy' of the property): atoms incl. exception objects are
-    shared, every other object is rebuilt with the same class / order / sharing pattern.  Independent of copy.deepcopy,
-    which cannot copy every library the parser produces (see the InvalidNameError finding)."""
+    """The harness's own deep copy (the reference 'prior deep copy' of the property): atoms are shared, every other
+    object is rebuilt with the same class / order / sharing pattern.  An exception object that holds nothing but atoms is
+    shared (it is an atom); one that holds anything else (itself or along its __cause__ / __context__ chain) is rebuilt
+    around clones of what it holds, so that the
+    reference copy is disjoint from the original and records the prior state of everything reachable through the error.
+    Independent of copy.deepcopy, which cannot copy every library the parser produces (see the InvalidNameError finding)."""
     if memo is None:
         memo = {}
-    if is_atom(x):
+    if is_leaf(x):
         return x
     if id(x) in memo:
         return memo[id(x)][1]
     t = type(x)
+    if is_exc(x):
+        if not reachable([tuple(c for _, c in exc_children(x, chained=True))]):
+            memo[id(x)] = (x, x)
+            return x
+        y = BaseException.__new__(t)
+        memo[id(x)] = (x, y)
+        y.args = clone(x.args, memo)
+        held = dict(exc_children(x)[1:])          # opaque immutable values replaced, harness notes left out
+        for k, v in x.__dict__.items():
+            y.__dict__[k] = clone(v, memo) if k in held and held[k] is v else v
+        if x.__cause__ is not None:
+            y.__cause__ = clone(x.__cause__, memo)
+        if x.__context__ is not None:
+            y.__context__ = clone(x.__context__, memo)
+        try:
+            same = exc_repr(y) == exc_repr(x)
+        except Exception:  # noqa: BLE001
+            same = False
+        if not same:
+            raise UnknownObject("exception of class %s cannot be rebuilt from args and __dict__" % t.__name__)
+        return y
     if t is list:
         y = []
         memo[id(x)] = (x, y)
@@ -174,7 +247,7 @@ def identity_map(root):
     out, seen = [], set()
 
     def go(x, path):
-        if is_atom(x):
+        if is_leaf(x):
             return
         if id(x) in seen:
             out.append((path, id(x), "again"))
